@@ -139,12 +139,14 @@ func checkPipesCase(res *Result, r *ppRunner, lines [][]byte, calls []specCall, 
 	}
 	var firstMissing []byte
 	missingAt := -1
+	writeFailed := false
 	for _, pc := range pieces {
 		m := pc.m
 		if m == len(lines) && len(lines) > 0 && !bytes.HasSuffix(lines[len(lines)-1], []byte("\n")) {
 			m = len(lines) - 1
 		}
 		if _, err := stdin.Write(pc.data); err != nil {
+			writeFailed = true
 			break
 		}
 		want := owed(m)
@@ -166,8 +168,44 @@ func checkPipesCase(res *Result, r *ppRunner, lines [][]byte, calls []specCall, 
 		res.violation(Finding{Property: "C03", Aspect: "pp-hang", What: tag + ": pp does not exit after its input was closed", Case: cs})
 		return
 	}
-	_ = cmd.Wait()
+	werr := cmd.Wait()
 	got := pr.bytes()
+	// C02 end to end, piecewise: whatever the pieces, pp's complete output is its input with each
+	// dump replaced by its rendering (the specification predicts no parse error for this stream)
+	if missingAt < 0 {
+		okTotal := false
+		var want0 []byte
+		for _, v := range [][2]bool{{false, false}, {true, false}, {true, true}, {false, true}} {
+			var want []byte
+			for i := range calls {
+				c := &calls[i]
+				e := expectCall(lines, c, v[0], v[1])
+				want = append(want, e.fwd...)
+				if len(c.Snap) != 0 {
+					want = append(want, r.render(cat(lines, c.Cons)).stdout...)
+				}
+				if c.Err == "eof" {
+					want = append(want, e.rest...)
+				}
+			}
+			if want0 == nil {
+				want0 = want
+			}
+			if bytes.Equal(want, got) {
+				okTotal = true
+				break
+			}
+		}
+		if !okTotal {
+			what := "pp's complete output is not its input with each dump replaced by its rendering"
+			if writeFailed {
+				what = "pp stopped reading its input before the end of the stream; " + what
+			}
+			res.violation(Finding{Property: "C02", Aspect: "pp-piecewise", What: fmt.Sprintf("%s: fed in %d pieces with stdin kept open in between, %s (exit: %v)", tag, len(pieces), what, werr),
+				Case: cs, Expected: string(want0), Observed: string(got)})
+		}
+		res.count("piecewise_totals_compared", 1)
+	}
 	if missingAt >= 0 {
 		if bytes.HasPrefix(got, firstMissing) {
 			res.violation(Finding{Property: "C11", Aspect: "pp-withheld", What: fmt.Sprintf("%s: after %d complete lines were delivered, %d bytes were owed on stdout but only appeared once stdin was closed", tag, missingAt, len(firstMissing)),
@@ -231,6 +269,8 @@ func init() {
 		sortByKey(len(pipes), func(i int) string { return pipes[i].raw }, func(i, j int) { pipes[i], pipes[j] = pipes[j], pipes[i] })
 		sortByKey(len(prints), func(i int) string { return prints[i].raw }, func(i, j int) { prints[i], prints[j] = prints[j], prints[i] })
 		rng := rand.New(rand.NewSource(*c.seed))
+		// pp stops at a parse error: only streams without one make a streaming / conservation claim
+		prints = cleanPrints(prints)
 		rng.Shuffle(len(pipes), func(i, j int) { pipes[i], pipes[j] = pipes[j], pipes[i] })
 		rng.Shuffle(len(prints), func(i, j int) { prints[i], prints[j] = prints[j], prints[i] })
 		lim := *c.limit
@@ -287,4 +327,21 @@ func init() {
 		wg.Wait()
 		return res.write(*c.out)
 	})
+}
+
+// cleanPrints keeps the printed dumps / reports for which the specification predicts no parse error.
+func cleanPrints(in []printCase) []printCase {
+	var out []printCase
+	for _, p := range in {
+		ok := true
+		for _, c := range p.Calls {
+			if c.Err != "" && c.Err != "eof" {
+				ok = false
+			}
+		}
+		if ok {
+			out = append(out, p)
+		}
+	}
+	return out
 }
